@@ -27,6 +27,18 @@ class AnalysisBroken(Exception):
     """exit 2: anchor vanished / floor not met / unclassifiable construct."""
 
 
+class WitnessRejected(AnalysisBroken):
+    """a witness translation unit - legal programs of the documented API over the matrix of parameter kinds, signature
+    shapes and policies, all accepted by the committed tree - is rejected by the compiler"""
+
+    def __init__(self, name, stderr):
+        self.witness = name
+        self.stderr = stderr
+        errs = [l for l in stderr.splitlines() if " error:" in l]
+        self.first = errs[0].strip()[:300] if errs else stderr.strip()[-300:]
+        super().__init__("witness %s does not compile:\n%s" % (name, stderr[-3000:]))
+
+
 class Run:
     """One check run: collects rule instances, violations, evidence."""
 
@@ -136,7 +148,7 @@ class Run:
                 pr["kinds"].append("%s (%d, reference %d)" % (lab, n, n_ref))
             elif n > n_ref:
                 pr["surplus"] += n - n_ref
-        if ref:
+        if ref and not getattr(self, "skip_reference", False):
             for rule, pr in sorted(per_rule.items()):
                 if pr["missing"] > pr["surplus"] and rule in self.rules and not self.rules[rule]["violations"]:
                     self.broken.append("rule %s lost %d obligation(s) of the reference (new ones: %d): %s" % (rule, pr["missing"], pr["surplus"], "; ".join(pr["kinds"][:4])))
@@ -303,7 +315,7 @@ def ir_json(run, src_text, name, ndebug=True, extra=()):
     ll = os.path.join(wd, "w.ll")
     r = sh([CXX] + flags + ["-O0", "-Xclang", "-disable-O0-optnone", "-fno-discard-value-names", "-g", "-S", "-emit-llvm", src, "-o", ll])
     if r.returncode != 0:
-        raise AnalysisBroken("witness %s does not compile to IR:\n%s" % (name, r.stderr[-3000:]))
+        raise WitnessRejected(name, r.stderr)
     llm = os.path.join(wd, "wm.ll")
     r = sh(["opt-14", "-passes=function(mem2reg)", ll, "-S", "-o", llm])
     if r.returncode != 0:
@@ -391,7 +403,7 @@ def ast_json(run, src_text, name, ndebug=True, funcs="", extra=(), cfg="", refs=
     cmd.append(src)
     r = sh(cmd)
     if r.returncode != 0 or not os.path.exists(tmp):
-        raise AnalysisBroken("witness %s does not parse / plugin failed:\n%s" % (name, r.stderr[-3000:]))
+        raise WitnessRejected(name, r.stderr)
     os.replace(tmp, outp)
     try:
         os.remove(src)
